@@ -312,7 +312,11 @@ class SshHostKeyECDSABase(SshHostKeyBase):
         else:
             raise NotImplementedError(named_group)
 
-        composer.compose_bytes(self.public_key.params.octet_bit_string, 4)
+        params = self.public_key.params
+        size = (params.named_group.value.size + 7) // 8
+        composer.compose_bytes(
+            b'\x04' + params.point_x.to_bytes(size, 'big') + params.point_y.to_bytes(size, 'big'), 4
+        )
 
 
 @attr.s
